@@ -6,14 +6,16 @@
 (* keys by position, new accounts, funds arriving at a key - in all orders *)
 (* up to MaxSteps; every answer the specification allows is taken.         *)
 (* 3 networks (two of them sharing a coin type) x 2 witness types x        *)
-(* 2 accounts x 2 chains.  Invariants = design-level statements of C09.    *)
+(* 2 accounts x 2 chains; Watch: the wallet was made from an account       *)
+(* public key; Ms: a multisig wallet (BIP48 paths, one witness type).      *)
+(* Invariants = design-level statements of C09.                            *)
 (***************************************************************************)
 EXTENDS WalletKeys, TLC
-CONSTANTS MaxSteps, MaxIdx, Watch
+CONSTANTS MaxSteps, MaxIdx, Watch, Ms
 VARIABLES s, steps, jumped, last
 vars == <<s, steps, jumped, last>>
 
-cfg  == [net |-> "bitcoin", wt |-> "segwit", acct |-> 0, ms |-> FALSE, cos |-> 0, watch |-> Watch]
+cfg  == [net |-> "bitcoin", wt |-> "segwit", acct |-> 0, ms |-> Ms, cos |-> 1, watch |-> Watch]
 cfgP == [cfg EXCEPT !.watch = FALSE]
 Wts  == {"segwit", "legacy"}
 Chains == {Chain("bitcoin", w, x, c) : w \in Wts, x \in 0..1, c \in 0..1}
